@@ -23,6 +23,7 @@ CONSTANTS
   HMax = %d
   NetMax = %d
   SMax = %d
+  Emit = %s
 INVARIANT CertifiedIsOptimal
 INVARIANT AlignedIsProper
 INVARIANT AlignedIsCertified
@@ -201,9 +202,28 @@ def drive(recipe):
     return t
 
 
-def make_recipes(ctx):
+def emitted_covariances(res):
+    """Covariance matrices printed by MC_Kabsch (action Align with Emit): 'H|<<<<..>>, <<..>>, <<..>>>>'."""
+    import re
+    out = set()
+    for line in res.printed:
+        if line.startswith("H|"):
+            v = [int(x) for x in re.findall(r"-?\d+", line[2:])]
+            if len(v) == 9:
+                out.add(tuple(v))
+    return [[list(v[0:3]), list(v[3:6]), list(v[6:9])] for v in sorted(out)]
+
+
+def make_recipes(ctx, emitted=()):
     rng = ctx.rng
     rec = []
+    hs = list(emitted)
+    kk = ctx.pick(40, 1500)
+    if len(hs) > kk:
+        hs = rng.sample(hs, kk)
+    for H in hs:            # A = unit vectors, B = rows of H: A^T B = H exactly
+        rec.append({"kind": "points", "A": [[1, 0, 0], [0, 1, 0], [0, 0, 1]], "B": H, "q": [0, 0, 0, 0],
+                    "mirror": False, "shape": "tlc-svd", "relation": "enumerated"})
     k = ctx.pick(1, 30)
     plan = [("generic", "rotated", 40), ("generic", "mirrored", 40), ("generic", "noisy", 50),
             ("generic", "noisy-mirrored", 30), ("generic", "unrelated", 20),
@@ -229,11 +249,15 @@ CONSTS = "  NetMax = %d\n" % NET_MAX
 
 
 def run(ctx):
-    ctx.model_check("mc/MC_Kabsch.tla", MC_CFG % (1, 4, 2), name="MC_Kabsch(H in -1..1, net |q|^2<=4, s<=2)", timeout=900)
+    res = ctx.model_check("mc/MC_Kabsch.tla", MC_CFG % (1, 4, 2, "TRUE"),
+                          name="MC_Kabsch(H in -1..1, net |q|^2<=4, s<=2)", timeout=900)
+    emitted = emitted_covariances(res)
+    if not emitted:
+        raise tlc.TLCFailure("MC_Kabsch emitted no covariance matrix")
     if not ctx.quick:
-        ctx.model_check("mc/MC_Kabsch.tla", MC_CFG % (1, 12, 3), name="MC_Kabsch(H in -1..1, net |q|^2<=12, s<=3)",
-                        timeout=1400)
-    recipes = make_recipes(ctx)
+        ctx.model_check("mc/MC_Kabsch.tla", MC_CFG % (1, 12, 3, "FALSE"),
+                        name="MC_Kabsch(H in -1..1, net |q|^2<=12, s<=3)", timeout=1400)
+    recipes = make_recipes(ctx, emitted)
     traces = pool_map(drive, recipes)
     ctx.validate("trace/Trace_Kabsch.tla", traces, consts=CONSTS, batch=4000, timeout=1200)
     ctx.rule = ("integer point sets A (3..50 points) and B = A Q for exact rational rotations Q from integer "
